@@ -201,3 +201,115 @@ theorem shutdown_is_final (c : Client) (hcur : c.current = .shutdown) : c.comput
   simp [Client.computeTransition, hcur]
 
 end GV.Props.C12
+
+namespace GV.Props.C12
+open GV
+
+/-! ### every history: the invariant over arbitrary sequences of what the driver loops do -/
+
+/-- what a driver loop does to the client between two looks at it -/
+inductive Action where
+  /-- a user request taken from the operation channel -/
+  | op (o : ClientOp)
+  /-- `transition_to_state(target)`; `lasted` is the measured age of the connection -/
+  | transition (target : CState) (lasted : Option Nat)
+  /-- the engine surfaced these packets from one read (`dispatch_packet_events`) -/
+  | dispatch (evs : List Packet)
+  /-- an error recorded by the driver (`apply_error`) -/
+  | error (kind : String)
+
+def isConnack : Packet → Bool
+  | .connack _ => true
+  | _ => false
+
+/-- the actions a driver can perform in a state: transitions it may request, and at most one CONNACK event per
+    connection (the engine accepts a CONNACK only in PendingConnack), surfaced while the client is Connected -/
+def allowed (c : Client) : Action → Prop
+  | .op _ => True
+  | .transition target _ => legal c.current target = true
+  | .dispatch evs =>
+    (evs.all (fun p => !isConnack p)) ∨
+    (c.current = .connected ∧ c.lastConnack = none ∧ ∃ pre k post, evs = pre ++ [.connack k] ++ post ∧
+      pre.all (fun p => !isConnack p) = true ∧ post.all (fun p => !isConnack p) = true)
+  | .error _ => True
+
+def act (c : Client) : Action → Client
+  | .op o => c.handleOp o
+  | .transition target lasted => (c.transitionTo target lasted).1
+  | .dispatch evs => c.dispatchEvents evs
+  | .error k => c.applyError k
+
+theorem handleOp_keeps (c : Client) (o : ClientOp) :
+    (c.handleOp o).events = c.events ∧ (c.handleOp o).current = c.current ∧ (c.handleOp o).lastConnack = c.lastConnack := by
+  cases o <;> simp only [Client.handleOp, Client.applyError, Client.engStep] <;> (repeat' split) <;> (try simp) <;> (repeat' split) <;> simp
+
+theorem applyError_keeps (c : Client) (k : String) :
+    (c.applyError k).events = c.events ∧ (c.applyError k).current = c.current ∧ (c.applyError k).lastConnack = c.lastConnack := by
+  simp only [Client.applyError]; split <;> simp
+
+theorem dispatch_append (c : Client) (a b : List Packet) : c.dispatchEvents (a ++ b) = (c.dispatchEvents a).dispatchEvents b := by
+  simp [Client.dispatchEvents, List.foldl_append]
+
+/-- events other than CONNACK keep the invariant and touch neither the state nor the last CONNACK -/
+theorem dispatch_no_connack (evs : List Packet) : ∀ (c : Client), evs.all (fun p => !isConnack p) = true → Inv c →
+    Inv (c.dispatchEvents evs) ∧ (c.dispatchEvents evs).current = c.current ∧ (c.dispatchEvents evs).lastConnack = c.lastConnack := by
+  induction evs with
+  | nil => intro c _ h; exact ⟨h, rfl, rfl⟩
+  | cons p rest ih =>
+    intro c hall h
+    simp only [List.all_cons, Bool.and_eq_true] at hall
+    have hstep : Inv (c.dispatchEvents [p]) ∧ (c.dispatchEvents [p]).current = c.current ∧ (c.dispatchEvents [p]).lastConnack = c.lastConnack := by
+      cases p with
+      | publish pb => exact ⟨publish_keeps_grammar c pb h, by simp [Client.dispatchEvents, Client.emit], by simp [Client.dispatchEvents, Client.emit]⟩
+      | connack k => simp [isConnack] at hall
+      | _ => exact ⟨by simpa [Client.dispatchEvents] using h, by simp [Client.dispatchEvents], by simp [Client.dispatchEvents]⟩
+    have := ih (c.dispatchEvents [p]) hall.2 hstep.1
+    rw [show p :: rest = [p] ++ rest from rfl, dispatch_append]
+    exact ⟨this.1, this.2.1.trans hstep.2.1, this.2.2.trans hstep.2.2⟩
+
+/-- one legal action keeps the invariant -/
+theorem act_keeps_grammar (c : Client) (a : Action) (h : Inv c) (hl : allowed c a) : Inv (act c a) := by
+  cases a with
+  | op o =>
+    have hk := handleOp_keeps c o
+    exact ⟨by simp only [act]; rw [expected_eq, hk.1, hk.2.1, hk.2.2, ← expected_eq]; exact h.1, by simp only [act]; rw [hk.2.1, hk.2.2]; exact h.2⟩
+  | error k =>
+    have hk := applyError_keeps c k
+    exact ⟨by simp only [act]; rw [expected_eq, hk.1, hk.2.1, hk.2.2, ← expected_eq]; exact h.1, by simp only [act]; rw [hk.2.1, hk.2.2]; exact h.2⟩
+  | transition target lasted => exact transition_keeps_grammar c target lasted h hl
+  | dispatch evs =>
+    simp only [act]
+    rcases hl with hl | ⟨hcur, hfirst, pre, k, post, rfl, hpre, hpost⟩
+    · exact (dispatch_no_connack evs c hl h).1
+    · rw [dispatch_append, dispatch_append]
+      have h1 := dispatch_no_connack pre c hpre h
+      have h2 := connack_keeps_grammar (c.dispatchEvents pre) k h1.1 (h1.2.1.trans hcur) (h1.2.2.trans hfirst)
+      exact (dispatch_no_connack post _ hpost h2).1
+
+/-- a history: each action legal in the state it is performed in -/
+def LegalRun : Client → List Action → Prop
+  | _, [] => True
+  | c, a :: rest => allowed c a ∧ LegalRun (act c a) rest
+
+/-- **Every history.**  Starting from a freshly created client, after any sequence of user requests, transitions
+    requested by the driver loops, surfaced packets and recorded errors, the whole event stream delivered so far is a
+    prefix of a well-formed stream (Attempt (Failure | Success Disconnection), Stopped only between attempts) and is in
+    step with the client's state. -/
+theorem every_history_well_formed (e : Engine) (actions : List Action) (h : LegalRun { eng := e } actions) :
+    Inv (actions.foldl act { eng := e }) := by
+  have key : ∀ (acts : List Action) (c : Client), Inv c → LegalRun c acts → Inv (acts.foldl act c) := by
+    intro acts
+    induction acts with
+    | nil => intro c hc _; exact hc
+    | cons a rest ih => intro c hc hl; exact ih _ (act_keeps_grammar c a hc hl.1) hl.2
+  exact key actions _ (by simp [Inv, expected, phaseOf]) h
+
+/-- consequence: the stream never contains a malformed step -/
+theorem never_bad (e : Engine) (actions : List Action) (h : LegalRun { eng := e } actions) :
+    phaseOf (actions.foldl act { eng := e }).events ≠ .bad := by
+  have := (every_history_well_formed e actions h).1
+  rw [this]
+  simp only [expected]
+  split <;> (try split) <;> simp
+
+end GV.Props.C12
